@@ -22,12 +22,25 @@ Generated once by harness/mkprops.py from harness/props_table.py + PGProperties/
 import PGProofs.MeanIncrement
 import PGProofs.Glue
 import PGProofs.ApiThm
+import PGProofs.WindowVar
 
 set_option linter.all false
 set_option pp.fieldNotation.generalized false
 
 namespace PG.C10
 open PG
+
+/-- the cached property var of a windowed distribution is the difference of the CENTRED second-order accumulation curve at the two ends of the window -/
+theorem window_var_curve_difference : ∀ {ρ : Type} (ctx : Api.DistCtx ρ), 0 < ctx.startDefault → 0 ≤ ctx.tMax → Api.propVar ctx = Except.ok (Api.c2At ctx ctx.tMax - Api.c2At ctx ctx.startDefault) := @PG.Api.propVar_curve_difference
+
+/-- m2 - mean**2 (a seeded change, twice) differs from it by 2 m1(start) (m1(end) - m1(start)) -/
+theorem window_var_shortcut_gap : ∀ {ρ : Type} (ctx : Api.DistCtx ρ), 0 < ctx.startDefault → ∀ (v w : ℚ), Api.propVar ctx = Except.ok v → Api.shortcutVar ctx = Except.ok w → w - v = 2 * Api.m1At ctx ctx.startDefault * (Api.m1At ctx ctx.tMax - Api.m1At ctx ctx.startDefault) := @PG.Api.shortcutVar_sub_propVar
+
+/-- and agrees exactly when m1(start) = 0 or m1(end) = m1(start) -/
+theorem window_var_shortcut_iff : ∀ {ρ : Type} (ctx : Api.DistCtx ρ), 0 < ctx.startDefault → ∀ (v w : ℚ), Api.propVar ctx = Except.ok v → Api.shortcutVar ctx = Except.ok w → (w = v ↔ Api.m1At ctx ctx.startDefault = 0 ∨ Api.m1At ctx ctx.tMax = Api.m1At ctx ctx.startDefault) := @PG.Api.shortcut_eq_var_iff
+
+/-- kernel-checked instance: var 63, shortcut 77 on the window [1/2, 4] -/
+theorem window_var_shortcut_counterexample : Api.propMean Api.ctxEx = Except.ok 7 ∧ Api.propM2 Api.ctxEx = Except.ok 126 ∧ Api.propVar Api.ctxEx = Except.ok 63 ∧ Api.shortcutVar Api.ctxEx = Except.ok 77 ∧ Api.shortcutVar Api.ctxEx ≠ Api.propVar Api.ctxEx := @PG.Api.var_shortcut_differs
 
 /-- first moments are additive over adjacent windows: the increment over [a,b] is a function of the distribution at a -/
 theorem additive_windows : type_of% @PG.accum_increment := @PG.accum_increment   -- (printed statement does not re-elaborate; see the source lemma)
@@ -82,6 +95,10 @@ theorem call_falsy_times_defect : Api.momentCall Api.Variant.falsyTimes (have __
 
 end PG.C10
 
+#print axioms PG.C10.window_var_curve_difference
+#print axioms PG.C10.window_var_shortcut_gap
+#print axioms PG.C10.window_var_shortcut_iff
+#print axioms PG.C10.window_var_shortcut_counterexample
 #print axioms PG.C10.additive_windows
 #print axioms PG.C10.redundant_boundary
 #print axioms PG.C10.zero_duration
